@@ -46,7 +46,13 @@ struct World {
     // reduce policy: 0 = left fold in rank order, 1 = right fold, 2 = seeded random bracketing with operand swaps
     int reduce_policy = 0; unsigned long seed = 1;
     long collectives = 0; std::vector<std::string> log; bool log_enabled = false;
+    // message log (one JSON object per completed collective: kind, root, per-rank description of the contribution, description
+    // of the result) for the message-level trace specification; payloads are described by vmpi::describe<T>, which the harness
+    // specialises for the library's message types
+    bool mlog_enabled = false; std::vector<std::string> mlog; std::vector<std::string> in_desc; std::string out_desc;
 };
+
+template<class T, class Enable = void> struct describe { static std::string json(const T &) { return "null"; } };
 
 inline World *&current_world() { static World *w = nullptr; return w; }
 inline int &my_rank() { static thread_local int r = 0; return r; }
@@ -56,21 +62,33 @@ template<class T> void unpack(const std::string &s, T &v) { std::istringstream i
 
 // enter a collective; returns this rank's serialized result
 inline std::string rendezvous(World &w, int rank, const std::string &kind, int root, const std::string &payload,
-        const std::function<void(World &)> &compute) {
+        const std::function<void(World &)> &compute, const std::string &in_desc = "null") {
     std::unique_lock<std::mutex> lk(w.mu);
     if (w.failed) throw error(w.failure);
-    if (w.arrived == 0) { w.kind = kind; w.root = root; w.in.assign((size_t) w.P, std::string()); w.outb[w.generation % 2].assign((size_t) w.P, std::string()); w.compute = compute; }
+    if (w.arrived == 0) { w.kind = kind; w.root = root; w.in.assign((size_t) w.P, std::string()); w.outb[w.generation % 2].assign((size_t) w.P, std::string()); w.compute = compute;
+                          w.in_desc.assign((size_t) w.P, "null"); w.out_desc = "null"; }
     else if (w.kind != kind || w.root != root) {
         w.failed = true; w.failure = "Mismatch: rank " + std::to_string(rank) + " entered " + kind + " while others are in " + w.kind;
         w.cv.notify_all(); throw error(w.failure);
     }
     w.in[(size_t) rank] = payload;
+    if (w.mlog_enabled) w.in_desc[(size_t) rank] = in_desc;
     w.arrived++;
     long gen = w.generation;
     if (w.arrived == w.P) {
         w.compute(w);
         w.collectives++;
         if (w.log_enabled) w.log.push_back(kind);
+        if (w.mlog_enabled) {
+            // broadcast: the root's value; scatter: the root's list of chunks; reduce: every rank's contribution and the result
+            std::string e = "{\"kind\":\"" + kind + "\",\"root\":" + std::to_string(root);
+            if (kind == "reduce") {
+                e += ",\"ins\":[";
+                for (int i = 0; i < w.P; i++) e += (i ? "," : "") + w.in_desc[(size_t) i];
+                e += "],\"out\":" + w.out_desc;
+            } else if (kind != "barrier") e += ",\"val\":" + w.in_desc[(size_t) root];
+            w.mlog.push_back(e + "}");
+        }
         w.arrived = 0; w.generation++;
         w.cv.notify_all();
     } else {
@@ -88,7 +106,7 @@ inline std::string rendezvous(World &w, int rank, const std::string &kind, int r
 
 // run f(rank) on P rank threads; returns per-rank error strings ("" = returned normally)
 inline std::vector<std::string> run(World &w, int P, const std::function<void(int)> &f) {
-    w.P = P; w.arrived = 0; w.finished = 0; w.generation = 0; w.failed = false; w.failure.clear(); w.collectives = 0; w.log.clear();
+    w.P = P; w.arrived = 0; w.finished = 0; w.generation = 0; w.failed = false; w.failure.clear(); w.collectives = 0; w.log.clear(); w.mlog.clear();
     current_world() = &w;
     std::vector<std::string> errs((size_t) P);
     std::vector<std::thread> th;
@@ -138,21 +156,22 @@ template<class T> void broadcast(const communicator &comm, T &value, int root) {
     std::string mine = comm.rank() == root ? vmpi::pack(value) : std::string();
     std::string r = vmpi::rendezvous(comm.world(), comm.rank(), "broadcast", root, mine, [root](vmpi::World &w) {
         for (int i = 0; i < w.P; i++) w.outb[w.generation % 2][(size_t) i] = w.in[(size_t) root];
-    });
+    }, (comm.rank() == root && comm.world().mlog_enabled) ? vmpi::describe<T>::json(value) : std::string("null"));
     if (comm.rank() != root) vmpi::unpack(r, value);
 }
 
 template<class T> void scatter(const communicator &comm, const std::vector<T> &in_values, T &out_value, int root) {
-    std::string mine;
+    std::string mine, desc = "null";
     if (comm.rank() == root) {
         if ((int) in_values.size() != comm.size()) throw vmpi::error("scatter: root supplies " + std::to_string(in_values.size()) + " values for " + std::to_string(comm.size()) + " ranks");
         std::vector<std::string> parts; for (auto &v : in_values) parts.push_back(vmpi::pack(v));
         mine = vmpi::pack(parts);
+        if (comm.world().mlog_enabled) { desc = "["; for (size_t i = 0; i < in_values.size(); i++) desc += (i ? "," : "") + vmpi::describe<T>::json(in_values[i]); desc += "]"; }
     }
     std::string r = vmpi::rendezvous(comm.world(), comm.rank(), "scatter", root, mine, [root](vmpi::World &w) {
         std::vector<std::string> parts; vmpi::unpack(w.in[(size_t) root], parts);
         for (int i = 0; i < w.P; i++) w.outb[w.generation % 2][(size_t) i] = parts[(size_t) i];
-    });
+    }, desc);
     vmpi::unpack(r, out_value);
 }
 template<class T> void scatter(const communicator &comm, T &out_value, int root) { scatter(comm, std::vector<T>(), out_value, root); }
@@ -177,7 +196,8 @@ template<class T, class Op> void reduce(const communicator &comm, const T &in_va
             }
             w.outb[w.generation % 2][(size_t) root] = vmpi::pack(cur[0]);
         }
-    });
+        if (w.mlog_enabled) { T res; vmpi::unpack(w.outb[w.generation % 2][(size_t) root], res); w.out_desc = vmpi::describe<T>::json(res); }
+    }, comm.world().mlog_enabled ? vmpi::describe<T>::json(in_value) : std::string("null"));
     if (comm.rank() == root) vmpi::unpack(r, out_value);
 }
 template<class T, class Op> void reduce(const communicator &comm, const T &in_value, Op op, int root) { T dummy; reduce(comm, in_value, dummy, op, root); }
